@@ -53,6 +53,17 @@ def check(mol, text, viol):
     if got_static != static:
         viol.append({"key": K + "[static-edges]", "clause": "static edges reproduce each token's internal bonds with their bond order",
                      "detail": {"missing": sorted(static - got_static)[:4], "extra": sorted(got_static - static)[:4]}, "input": inp})
+    # the same graph object asked again: the same graph
+    def sig(g):
+        return (sorted((n, tuple(sorted((k, str(v)) for k, v in d.items()))) for n, d in g.nodes(data=True)),
+                sorted((u, v, tuple(sorted((k, float(x)) for k, x in d.items()))) for u, v, d in g.edges(data=True)))
+    first = sig(G)
+    with warnings.catch_warnings():
+        warnings.simplefilter("ignore")
+        sag.generate()
+    if sig(sag.graph) != first:
+        viol.append({"key": K + "[repeatable]", "clause": "building the graph again on the same object gives the same graph",
+                     "detail": {"nodes_first": len(first[0]), "nodes_second": sag.graph.number_of_nodes()}, "input": inp})
     # descriptor -> (node of its atom, info, element index, is_end, is_repeat_of_stochastic)
     dmap = []
     for ei, lst in enumerate(where):
